@@ -77,7 +77,8 @@ Definition corr (c : case) : bool :=
       option_eqb tyarg_eqb (a_ser0 o) (ser_arg a) && option_eqb tyarg_eqb (a_ser1 o) (ser_arg r) &&
       option_eqb term_eqb (a_mod0 o) (arg_to_model a) && option_eqb term_eqb (a_mod1 o) (arg_to_model r)
   | CHugr reg nodes rest =>
-      forallb (corr_node reg) nodes && rest &&
+      forallb (corr_node reg) nodes &&
+      implb (forallb (fun n => match ser_op (resolve_op reg (n_op n)) with Some _ => true | None => false end) nodes) rest &&
       (* Hugr.resolve_extensions as a whole *)
       list_eqb op_eqb (map n_res nodes) (resolve_hugr reg (map n_op nodes))
   end.
@@ -128,7 +129,11 @@ Definition mon_node (reg : registry) (n : node_obs) : bool :=
   implb (loaded_op (n_op n)) (clean_op reg (n_res n)) &&
   op_eqb (n_res2 n) (n_res n) &&
   option_eqb export_eqb (n_exp1 n) (n_exp0 n) &&
-  list_eqb (rty_b reg) (n_pt0 n) (n_pt1 n) &&
+  (* port types: those of a resolved operation are the resolved port types, all others are identical *)
+  (match n_res n with
+   | OExt _ => list_eqb (rty_b reg) (n_pt0 n) (n_pt1 n)
+   | _ => list_eqb ty_eqb (n_pt0 n) (n_pt1 n)
+   end) &&
   implb (consistent_op reg (n_op n))
         (ser_same reg (n_ser0 n) (n_ser1 n) && list_eqb obound_eqb (n_pb1 n) (n_pb0 n)).
 
@@ -136,5 +141,8 @@ Definition mon (c : case) : bool :=
   match c with
   | CTy reg t o => implb (regwf_b reg) (mon_ty reg t o)
   | CArg reg a o => implb (regwf_b reg) (mon_arg reg a o)
-  | CHugr reg nodes rest => implb (regwf_b reg) (forallb (mon_node reg) nodes && rest)
+  | CHugr reg nodes rest =>
+      (* an inconsistent operation may be unserialisable once resolved; the document is then not comparable *)
+      implb (regwf_b reg) (forallb (mon_node reg) nodes &&
+                           implb (forallb (fun n => consistent_op reg (n_op n)) nodes) rest)
   end.
